@@ -15,6 +15,30 @@ CHECKS = {
    text="Every fault of the wire/store catalogue applied to an honest Credential frame and delivered to the Holder node: all 640 single-bit flips of the signature (complete every 16 runs), every single-element list fault for small L, header faults, misroute to the other suite / blind interface / another key, stored-pk bit flips, blind-interface signatures at plain endpoints. Verdict by content: a frame whose statement equals no signed statement must be rejected. The bit-flip and single-edit spaces are finite and enumerated completely; shapes are sampled.",
    note="Acceptance of a MustReject frame by correct code has probability <= 2^-128. A verifier panic counts as rejection here and is charged to C08.",
    technique="deterministic simulation: complete wire-fault enumeration on the issuance channel, ideal-functionality oracle"),
+ "C03": dict(engine=REAL_BBS, cat="exploration", ref="§5 C03",
+   text="Seeded search over presentation sessions Issuer -> Holder -> Verifier. The Holder's proof_gen runs the library's production randomness path (never run by the test suite) on its own OS thread, fed by a deterministic per-node entropy stream injected below getrandom(2), with EINTR and short reads, holder crash-restart before presenting and tick preemption inside the library's loops. Disclosure sets: all 2^L subsets in rotation for L<=6, none/all/random above. Neutral faults only; oracle MustAccept plus the length formula 272+32U.",
+   note="'reveals nothing else' is decided as the length formula only. Exploration: sampled, not enumerated (the subsets for L<=4 are completed within a quick batch).",
+   technique="deterministic simulation: entropy seam below rand, crash-restart, preemption, ideal-functionality oracle"),
+ "C04": dict(engine=REAL_BBS, cat="fault_enumeration", ref="§5 C04",
+   text="The corrupting catalogue on the Presentation frame (every bit of the fixed 272 octets every 16 runs plus all bits of one response, whole-scalar truncation/extension, dropped/inserted responses, every single-element fault of the disclosed-message list, every integer corruption of every index, permuted/dropped/duplicated/added pairs, header/ph faults, misroute) and an active network adversary (Mallory) who builds frames from public data only: 8 degenerate-element families x 3 claimed statements, through from_bytes and through the serde decoder, with the challenge computed by the executable spec model. Verdict by content: anything no honest prover produced for that statement must be rejected.",
+   note="Found the universal forgery F1 on the pinned tree (fixed in /repo bb0073d). Consistently permuted/duplicated (index,message) pairs are DontCare. Crashes count as rejection and are charged to C08.",
+   technique="deterministic simulation: wire-fault enumeration plus Byzantine frame families, ideal-functionality oracle"),
+ "C05": dict(engine=REAL_BBS, cat="exploration", ref="§5 C05",
+   text="Blind issuance and presentation sessions over all 321 (L, M, disclosure pair) combinations with L+M<=5 for both suites (complete every 642 runs) and sampled shapes up to (40,40), including issuance without a commitment; production commit/proof randomness through the entropy seam with EINTR/short reads; holder crash-restart between commit and receipt of the signature (the blind factor survives only as 32 octets) and before presenting; neutral faults only; oracle MustAccept and the proof-length formula.",
+   note="A blind signature issued without commitment is checked with no committed messages and an absent (zero) blind factor.",
+   technique="deterministic simulation: enumerated small shapes + seeded search, entropy seam, crash-restart with durable blind factor"),
+ "C06": dict(engine=REAL_BBS, cat="fault_enumeration", ref="§5 C06",
+   text="On the BlindRequest hop: every bit flip of the commitment-with-proof (in slices across runs), whole-scalar truncation/extension, dropped/inserted response, cross-suite replay and splices with a second honest request -- the Issuer node must refuse everything that is not byte-identical to an honest request for its suite. On the BlindCredential and Presentation hops: single edits of committed messages, signer messages, blind factor (all 256 bit flips every 8 runs), header, ph, L, indexes, pk, signature and proof bits, misroute to other suite/interface/key -- verdict by content.",
+   note="Requests extended by 1..31 octets are C09's clause, not C06's. Crashes count as refusal and are charged to C08.",
+   technique="deterministic simulation: wire-fault enumeration on the three blind hops, ideal-functionality oracle"),
+ "C08": dict(engine=REAL_BBS, cat="fault_enumeration", ref="§5 C08",
+   text="A maximally faulty channel in front of every BBS handler: the finite space {15 octet-string entry points} x {7 content classes} x {every length 0..=1024}, the serde_json decoders on every truncation / wrong-type / huge-array variant of honest JSON, and corrupted integers and index lists on verify, proof_verify, blind_proof_verify, proof_gen, blind_proof_gen, update_signature, is enumerated completely every 129 runs. The victim node must return: a panic, an arithmetic overflow (overflow-checks on), a work-budget trip (ticks of the guarded hook, no clock) or an allocation-budget trip (counting allocator) is a violation.",
+   note="Found F2 and F3 on the pinned tree (fixed in /repo 7bc6f36, b3ccb8b). n of update_signature and the caller's own message lists are trusted inputs. Allocation failure is not injected.",
+   technique="deterministic simulation: torn/garbage frame enumeration, crash and work/allocation meters as the observation"),
+ "C09": dict(engine=REAL_BBS, cat="fault_enumeration", ref="§5 C09",
+   text="Per artefact type and suite: durable round trips across a node restart in every codec (octets, JSON, pk coordinates); and the complete fault neighbourhood of an honest encoding -- extension by 1..=64 octets x 3 content classes, truncation to every length, every single-bit flip, every non-canonical/forbidden substitution in every point and scalar slot -- with the oracle: accepted => re-encoding equals the delivered octets, forbidden class => Err. 48 runs enumerate everything.",
+   note="Found F4 and the identity/zero decodes of F1 on the pinned tree (fixed in /repo 7bc6f36, bb0073d). Decoders are pure functions; the simulator contributes the restart/reload observation and replay.",
+   technique="deterministic simulation: fault-neighbourhood enumeration of stored/in-flight encodings, restart round trips"),
 }
 
 NOT_APPLICABLE = []
